@@ -1,4 +1,5 @@
 import A2Verif.Lemmas.C15Data
+import A2Verif.Lemmas.C15Label
 /-!
 # C15 — Disassembly reassembles to the identical bytes
 
@@ -8,7 +9,7 @@ All theorems are about the *repaired* code (`Quirks.fixed`); the three behaviour
 violate the property are kept as `Quirks.orig` and refuted on concrete witnesses at the end of the file.
 -/
 namespace A2Verif.C15
-open A2Verif.Gen.Opcodes A2Verif.Dasm A2Verif.Asm
+open A2Verif.Gen.Opcodes A2Verif.Gen.DasmLabels A2Verif.Dasm A2Verif.Asm
 
 /-- **Coverage** ("accounts for every input byte exactly once"), for every byte string, origin, processor,
 MX setting and `brk` option, code and data runs alike: the emitted lines tile `[org, org + n)` — each line
@@ -127,6 +128,83 @@ example : okIs (asmAll Quirks.fixed ⟨.p6502, .m8, true, true⟩ 0x300
 example : okIs (asmAll Quirks.fixed ⟨.p6502, .m8, true, true⟩ 0x300
     (dasm Quirks.fixed ⟨.p6502, true, true, false⟩ 0x300 [0x02, 0x03, 0x02, 0x03])) [0x02, 0x03, 0x02, 0x03] = false := by
   decide +kernel
+
+/-! ## Labelled output (`labeling` = "some" / "all")
+
+The theorems above are about the listing with `labeling = "none"` (every operand is a number).  `format_lines`
+can replace an operand by a label `_HEX`; `Assembler::dasm_symbols` gives that label the value `HEX`.  The label
+layer is `Model/DasmLabel.lean`; the look-up key of the substitution guard is read from the current source by the
+translator (`Gen.DasmLabels.labelKey`). -/
+
+/-- **The substitution guard of the current tree** compares the *full* operand value with the labelled line
+addresses (`labels.contains(&(operand.num[0] as usize))`).  Re-checked against `disassembly.rs` on every run; it
+stops proving the moment the guard looks the value up in any other way (e.g. reduced to the label width). -/
+theorem label_guard_current_tree : labelKey = LabelKey.exact := by decide
+
+/-- **A label operand stands for the operand value itself**: for every line list whose addresses fit 24 bits,
+every labeling mode, every line (1, 2 or 3 operand bytes, any bank, branch destinations), if the operand is
+replaced by a label then the value of that label (its `pc_bytes`-byte hex text) is the operand value — in
+particular a 24-bit operand in another bank is never given the 16-bit label of a line that shares its low word. -/
+theorem label_stands_for_operand (lab : Labeling) (ls : List Line) (hb : ∀ l ∈ ls, l.addr < 2 ^ 24)
+    (l : Line) (x : Nat) (h : labelSubst labelKey (labelSet lab ls) (pcBytes ls) l = some x) :
+    l.labelCand = some x := by
+  rw [label_guard_current_tree] at h
+  exact labelSubst_exact lab ls hb l x h
+
+example : labelSubst .exact (labelSet .some (dasm Quirks.fixed ⟨.p65816, true, true, false⟩ 0x8000 [0xAF, 0x00, 0x80, 0x00, 0x60]))
+    2 (.instr 0x8000 .lda .absl false .long false (.val 0x8000 3)) = some 0x8000 := by decide +kernel
+example : labelSubst .exact (labelSet .some (dasm Quirks.fixed ⟨.p65816, true, true, false⟩ 0x8000 [0xAF, 0x00, 0x80, 0x01, 0x60]))
+    2 (.instr 0x8000 .lda .absl false .long false (.val 0x018000 3)) = none := by decide +kernel
+
+/-- **Never different bytes, one labelled line, arbitrary input.**  `never_different_bytes` with the line taken
+from the labelled listing: whatever the rest of the program is (it only enters through the label table), any
+labeling mode, any operand width and bank. -/
+theorem never_different_bytes_labelled (cfg : Cfg) (ver : Ver) (lab : Labeling) (ls : List Line)
+    (hls : ∀ l ∈ ls, l.addr < 2 ^ 24) (addr : Nat) (rest : List Nat)
+    (hc : compat cfg.proc ver = true) (hne : rest ≠ []) (hb : ∀ x ∈ rest, x < 256) (b : List Nat)
+    (hok : lineBytes Quirks.fixed ⟨cfg.proc, ver, cfg.m8, cfg.x8⟩ addr
+      (substLine labelKey (labelSet lab ls) (pcBytes ls) (step Quirks.fixed cfg addr rest).1) = .ok b) :
+    b = rest.take (step Quirks.fixed cfg addr rest).2 := by
+  rw [label_guard_current_tree, substLine_exact lab ls hls] at hok
+  exact step_content cfg ver addr rest hc hne hb b hok
+
+/-- **Never different bytes, whole labelled program** (`labeling` none / some / all): for ANY byte string that
+fits the 24-bit address space, any origin, processor, assembler variant that can declare it, MX and brk, if
+assembling the labelled listing succeeds the result is the input. -/
+theorem reassembly_never_differs_labelled (cfg : Cfg) (ver : Ver) (lab : Labeling) (org : Nat) (bytes : List Nat)
+    (hc : compat cfg.proc ver = true) (hb : ∀ x ∈ bytes, x < 256) (hsz : org + bytes.length ≤ 2 ^ 24)
+    (b : List Nat)
+    (hok : asmAll Quirks.fixed ⟨cfg.proc, ver, cfg.m8, cfg.x8⟩ org
+      (labelled labelKey lab (dasm Quirks.fixed cfg org bytes)) = .ok b) :
+    b = bytes := by
+  rw [label_guard_current_tree, labelled_exact lab _ (dasm_addr_bound _ cfg org bytes hb hsz)] at hok
+  exact go_never_differs cfg ver hc bytes.length org bytes (Nat.le_refl _) hb b hok
+
+/-- **Pure code reassembles from the labelled listing as well.** -/
+theorem pure_code_reassembles_labelled (cfg : Cfg) (ver : Ver) (lab : Labeling) (org : Nat) (bytes : List Nat)
+    (hc : compat cfg.proc ver = true) (hb : ∀ x ∈ bytes, x < 256) (hsz : org + bytes.length ≤ 2 ^ 24)
+    (hp : pureCode cfg bytes.length bytes = true) :
+    asmAll Quirks.fixed ⟨cfg.proc, ver, cfg.m8, cfg.x8⟩ org
+      (labelled labelKey lab (dasm Quirks.fixed cfg org bytes)) = .ok bytes := by
+  rw [label_guard_current_tree, labelled_exact lab _ (dasm_addr_bound _ cfg org bytes hb hsz)]
+  exact (pure_go cfg ver hc bytes.length org bytes (Nat.le_refl _) hb hp).1
+
+/-- `LDAL $018000 / RTS` at `$8000` ("some": the first line is labelled `_8000`): the operand stays a number -/
+example : okIs (asmAll Quirks.fixed ⟨.p65816, .m16, true, true⟩ 0x8000
+    (labelled .exact .some (dasm Quirks.fixed ⟨.p65816, true, true, false⟩ 0x8000 [0xAF, 0x00, 0x80, 0x01, 0x60])))
+    [0xAF, 0x00, 0x80, 0x01, 0x60] = true := by decide +kernel
+
+/-- **A guard that compares modulo the label width violates the property** (seeded change C15-3, replayed on the
+real code by the harness, sig `c15/65816/reassembly-differs/long-label-alias`): the same program is listed as
+`_8000 LDAL _8000`, which assembles to bank `00`. -/
+example : okIs (asmAll Quirks.fixed ⟨.p65816, .m16, true, true⟩ 0x8000
+    (labelled .masked .some (dasm Quirks.fixed ⟨.p65816, true, true, false⟩ 0x8000 [0xAF, 0x00, 0x80, 0x01, 0x60])))
+    [0xAF, 0x00, 0x80, 0x00, 0x60] = true := by decide +kernel
+
+/-- the same on the 65802 with a branch target as the aliased label: `CMPL $FF2000 / BEQ $2000 / RTS` -/
+example : okIs (asmAll Quirks.fixed ⟨.p65802, .m8, true, true⟩ 0x2000
+    (labelled .masked .some (dasm Quirks.fixed ⟨.p65802, true, true, false⟩ 0x2000 [0xCF, 0x00, 0x20, 0xFF, 0xF0, 0xFA, 0x60])))
+    [0xCF, 0x00, 0x20, 0x00, 0xF0, 0xFA, 0x60] = true := by decide +kernel
 
 /-! ## The unrepaired code violates the property (witnesses replayed on the real code by the harness) -/
 
